@@ -26,6 +26,7 @@ type Req struct {
 	RandHex  []string `json:"rand_hex,omitempty"`
 	PtyCols  int      `json:"pty_cols,omitempty"`
 	PtyRows  int      `json:"pty_rows,omitempty"`
+	Observe  bool     `json:"observe,omitempty"`
 }
 
 type Res struct {
@@ -35,6 +36,7 @@ type Res struct {
 	Panic   bool   `json:"panic"`
 	Reads   int    `json:"rand_reads"`
 	Timeout bool   `json:"timeout,omitempty"`
+	Micros  int64  `json:"micros,omitempty"`
 }
 
 func (r Res) String() string {
@@ -53,8 +55,8 @@ func Stdin(s string) *[]byte { b := []byte(s); return &b }
 // R builds a request with scripted randomness off.
 func R(cwd string, args ...string) Req { return Req{Cwd: cwd, Args: args, RandBase: -1} }
 
-func (r Req) In(s string) Req       { r.Stdin = Stdin(s); return r }
-func (r Req) Rand(base int64) Req   { r.RandBase = base; return r }
+func (r Req) In(s string) Req         { r.Stdin = Stdin(s); return r }
+func (r Req) Rand(base int64) Req     { r.RandBase = base; return r }
 func (r Req) RandIDs(h ...string) Req { r.RandHex = h; return r }
 
 func (r Req) Shell() string {
@@ -207,48 +209,77 @@ func (s *Server) stop() {
 }
 
 func (s *Server) Run(r Req) Res {
+	line, res := s.exchange(r)
+	if line == nil {
+		return res
+	}
+	if err := json.Unmarshal(line, &res); err != nil {
+		s.Close()
+		return Res{Err: []byte("server: bad response: " + err.Error()), Exit: 98}
+	}
+	return res
+}
+
+// ObsBatch is the reply to an Observe request.
+type ObsBatch struct {
+	IDs []string `json:"ids"`
+	Res []Res    `json:"res"`
+}
+
+// RunObserve runs list --all/--epics/--ready and show <id> for every id in one round trip.
+func (s *Server) RunObserve(cwd string) (ObsBatch, bool) {
+	line, res := s.exchange(Req{Cwd: cwd, Observe: true, RandBase: -1})
+	var ob ObsBatch
+	if line == nil {
+		ob.Res = []Res{res}
+		return ob, false
+	}
+	if err := json.Unmarshal(line, &ob); err != nil {
+		s.Close()
+		return ObsBatch{Res: []Res{{Err: []byte("server: bad response: " + err.Error()), Exit: 98}}}, false
+	}
+	return ob, true
+}
+
+// exchange sends one request and returns the raw response line (nil + error result on failure).
+func (s *Server) exchange(r Req) ([]byte, Res) {
 	s.mu.Lock()
 	defer s.mu.Unlock()
 	if s.cmd == nil {
 		if err := s.start(); err != nil {
-			return Res{Err: []byte("server: " + err.Error()), Exit: 99}
+			return nil, Res{Err: []byte("server: " + err.Error()), Exit: 99}
 		}
 	}
 	b, _ := json.Marshal(r)
 	b = append(b, '\n')
 	if _, err := s.reqW.Write(b); err != nil {
 		s.stop()
-		return Res{Err: []byte("server: write: " + err.Error()), Exit: 99}
+		return nil, Res{Err: []byte("server: write: " + err.Error()), Exit: 99}
 	}
-	type rr struct {
-		res Res
-		err error
-	}
-	ch := make(chan rr, 1)
-	go func() {
-		line, err := s.resR.ReadBytes('\n')
-		if err != nil {
-			ch <- rr{err: err}
-			return
-		}
-		var res Res
-		if err := json.Unmarshal(line, &res); err != nil {
-			ch <- rr{err: err}
-			return
-		}
-		ch <- rr{res: res}
-	}()
-	select {
-	case x := <-ch:
-		if x.err != nil {
-			s.stop()
-			return Res{Err: []byte("server: died: " + x.err.Error()), Exit: 98}
-		}
-		return x.res
-	case <-time.After(60 * time.Second):
+	// watchdog: a hang kills the server, which makes the blocking read below fail
+	var timedOut bool
+	var tmu sync.Mutex
+	proc := s.cmd.Process
+	timer := time.AfterFunc(60*time.Second, func() {
+		tmu.Lock()
+		timedOut = true
+		tmu.Unlock()
+		proc.Kill()
+	})
+	line, err := s.resR.ReadBytes('\n')
+	timer.Stop()
+	tmu.Lock()
+	to := timedOut
+	tmu.Unlock()
+	if to {
 		s.stop()
-		return Res{Exit: -1, Timeout: true}
+		return nil, Res{Exit: -1, Timeout: true}
 	}
+	if err != nil {
+		s.stop()
+		return nil, Res{Err: []byte("server: died: " + err.Error()), Exit: 98}
+	}
+	return line, Res{}
 }
 
 // ---------------------------------------------------------------------------------------------
